@@ -94,8 +94,18 @@ func checkLinesSplit(c *core.Ctx) {
 	var lit *ast.FuncLit
 	ast.Inspect(fn.Decl.Body, func(n ast.Node) bool {
 		if call, ok := n.(*ast.CallExpr); ok && p.CalleeName(info, call) == "bufio.(*Scanner).Split" && len(call.Args) == 1 {
-			if l, ok := call.Args[0].(*ast.FuncLit); ok {
+			if l := funcValueLit(p, fn, call.Args[0]); l != nil {
 				lit = l
+			} else if fc, ok := core.Unparen(call.Args[0]).(*ast.CallExpr); ok {
+				// a factory of the same package: `sc.Split(splitOnSeparator(d.separator))` with
+				// `func splitOnSeparator(sep string) bufio.SplitFunc { return func(…) … }`
+				if factory := funcValueLit(p, fn, fc.Fun); factory != nil && len(factory.Body.List) > 0 {
+					if rs, ok := factory.Body.List[len(factory.Body.List)-1].(*ast.ReturnStmt); ok && len(rs.Results) == 1 {
+						if l, ok := core.Unparen(rs.Results[0]).(*ast.FuncLit); ok {
+							lit = l
+						}
+					}
+				}
 			}
 		}
 		return true
